@@ -12,6 +12,8 @@ L3 model is slice c14's Props/C04L3.lean; here it is validated by the harness on
 import JsonV.Lemmas.TimeUnixRt
 import JsonV.Lemmas.TimeISORt
 import JsonV.Props.C10
+import JsonV.Props.C10Glue
+import JsonV.Lemmas.TimeFloatNF
 
 namespace JsonV.Props.C04
 open JsonV JsonV.Model.Time
@@ -130,6 +132,94 @@ theorem quoted_uint_rt (w : Nat) (hw : JsonV.Lemmas.NumInt.GoWidth w) (n : Nat) 
   simp [JsonV.Model.Number.unmarshalUintValue, hu]
 
 example : JsonV.Lemmas.NumInt.GoWidth 64 ∧ (18446744073709551615 : Nat) < 2 ^ 64 := ⟨Or.inr (Or.inr (Or.inr rfl)), by decide⟩
+
+/-! ### quoted floats (`,string` float fields, StringifyNumbers, float map keys)
+
+Over slice C10's model of the float arshaler (`Model/Number.lean`: `unmarshalFloatValue`, `appendFloat`) and its
+glue theorem `Props.C10Glue.quoted_float_rt`.  The domain is instantiated with the NORMAL FORMS of the destination
+format (`Lemmas/TimeFloatNF.lean`): every finite float64/float32 value has exactly one, and on them equal `Fl`
+means identical IEEE bits (`float_bits_determine`).
+
+What `FloatRT fp (NormalFl ff)` assumes about strconv — and nothing else — for the codec
+`fp = ⟨strconv.ParseFloat(·, bits), shortest decomposition used by strconv.AppendFloat(·, 'e'/'f', -1, bits)⟩`:
+  (wfd) the shortest decomposition `0.d₁…d_k × 10^n` of every value is well formed: decimal digits, `d₁ ≠ 0`,
+        zero is `([], 0)`, and `|n - 1| < 1000`;
+  (rt)  for every finite normal form `f` of the format, `ParseFloat(AppendFloat(f)) = f`, i.e. the shortest digits
+        are enough for the correctly rounding parser to return the same value (the "shortest round-trip" contract
+        of strconv.FormatFloat(-1) / ParseFloat).
+Both are validated by the harnesses (C04/C10: ALL finite float32 bit patterns in the thorough tier, boundary and
+random float64 patterns), not proved: strconv's digit generation is outside the model. -/
+
+open JsonV.Lemmas.FloatNF in
+/-- `quoted_float_rt` for C04: a finite float of format `ff` written by the float marshaler (`jsonwire.AppendFloat`)
+is read back as the SAME value by the float unmarshaler — as a bare JSON number, and in the quoted form
+(`"` ++ text ++ `"`, stripped by `UnquoteMayCopy`) used by `,string` fields, StringifyNumbers and map keys —
+while the quoted path refuses the bare number and the bare path refuses the string (kind mismatch). -/
+theorem quoted_float_rt (ff : JsonV.Model.Number.FloatFmt) (fp : JsonV.Canon.FloatCodec)
+    (h : JsonV.Props.C10Glue.FloatRT fp (NormalFl ff)) (f : JsonV.Model.Number.Fl) (hd : NormalFl ff f) :
+    JsonV.Model.Number.unmarshalFloatValue fp.parse false .num (fp.append f) = .set f ∧
+    JsonV.Model.Number.unmarshalFloatValue fp.parse true .str (unquoteVerbatim (quoteNum (fp.append f))) = .set f ∧
+    JsonV.Model.Number.unmarshalFloatValue fp.parse true .num (fp.append f) = .err .mismatch ∧
+    JsonV.Model.Number.unmarshalFloatValue fp.parse false .str (fp.append f) = .err .mismatch := by
+  have hq := JsonV.Props.C10Glue.quoted_float_rt fp (NormalFl ff) h f hd hd.1
+  refine ⟨hq.1, ?_, ?_, ?_⟩
+  · rw [unquote_quote]; exact hq.2
+  · simp [JsonV.Model.Number.unmarshalFloatValue]
+  · simp [JsonV.Model.Number.unmarshalFloatValue]
+
+open JsonV.Lemmas.FloatNF in
+/-- the two instances the library has: float64 and float32 destinations. -/
+theorem quoted_float64_rt (fp : JsonV.Canon.FloatCodec) (h : JsonV.Props.C10Glue.FloatRT fp (NormalFl JsonV.Model.Number.fmt64))
+    (f : JsonV.Model.Number.Fl) (hd : NormalFl JsonV.Model.Number.fmt64 f) :
+    JsonV.Model.Number.unmarshalFloatValue fp.parse true .str (unquoteVerbatim (quoteNum (fp.append f))) = .set f :=
+  (quoted_float_rt _ fp h f hd).2.1
+
+open JsonV.Lemmas.FloatNF in
+theorem quoted_float32_rt (fp : JsonV.Canon.FloatCodec) (h : JsonV.Props.C10Glue.FloatRT fp (NormalFl JsonV.Model.Number.fmt32))
+    (f : JsonV.Model.Number.Fl) (hd : NormalFl JsonV.Model.Number.fmt32 f) :
+    JsonV.Model.Number.unmarshalFloatValue fp.parse true .str (unquoteVerbatim (quoteNum (fp.append f))) = .set f :=
+  (quoted_float_rt _ fp h f hd).2.1
+
+open JsonV.Lemmas.FloatNF in
+-- the domain is inhabited by ordinary values: 1.5 = 3·2^51 · 2^-52, the smallest subnormal, -0, MaxFloat64
+example : NormalFl JsonV.Model.Number.fmt64 ⟨false, false, 6755399441055744, -52⟩ ∧
+    NormalFl JsonV.Model.Number.fmt64 ⟨false, false, 1, -1074⟩ ∧ NormalFl JsonV.Model.Number.fmt64 ⟨true, false, 0, -1074⟩ ∧
+    NormalFl JsonV.Model.Number.fmt64 ⟨false, false, 9007199254740991, 971⟩ ∧
+    NormalFl JsonV.Model.Number.fmt32 ⟨false, false, 16777215, 104⟩ := by decide
+
+open JsonV.Lemmas.FloatNF in
+/-- … and the law is satisfiable on a non-empty part of that domain (the codec whose only value is +0), so the
+implication is not vacuous; for the real strconv codec the law is the validated assumption described above. -/
+example :
+    let fp : JsonV.Canon.FloatCodec := ⟨fun _ => ⟨false, false, 0, -1074⟩, fun _ => ([], 0)⟩
+    let dom : JsonV.Model.Number.Fl → Prop := fun f => NormalFl JsonV.Model.Number.fmt64 f ∧ f = ⟨false, false, 0, -1074⟩
+    JsonV.Props.C10Glue.FloatRT fp dom ∧ dom ⟨false, false, 0, -1074⟩ :=
+  ⟨⟨fun _ => (show JsonV.Lemmas.NumFloat.WFD [] 0 from ⟨by simp, by simp, fun _ => rfl, by omega, by omega⟩),
+    fun f hf => hf.2.symm⟩, by decide, rfl⟩
+
+open JsonV.Lemmas.FloatNF in
+/-- "reads back as the same `Fl`" is "reads back with identical bits": on normal forms the IEEE-754 bit pattern
+determines the representation (float64 and float32). -/
+theorem float_bits_determine (f g : JsonV.Model.Number.Fl) :
+    (NormalFl JsonV.Model.Number.fmt64 f → NormalFl JsonV.Model.Number.fmt64 g →
+      f.toBits JsonV.Model.Number.fmt64 = g.toBits JsonV.Model.Number.fmt64 → f = g) ∧
+    (NormalFl JsonV.Model.Number.fmt32 f → NormalFl JsonV.Model.Number.fmt32 g →
+      f.toBits JsonV.Model.Number.fmt32 = g.toBits JsonV.Model.Number.fmt32 → f = g) :=
+  ⟨toBits64_injective f g, toBits32_injective f g⟩
+
+open JsonV.Lemmas.FloatNF in
+/-- the v1 quoted arm (`StringifyWithLegacySemantics`: v1 `,string` fields and map keys parse with
+strconv.ParseFloat on the Go syntax at the destination width) gives the same result, provided the Go-syntax
+parser agrees with the JSON-number parser on the emitted text (the Go float syntax contains the JSON one). -/
+theorem quoted_float_legacy_rt (ff : JsonV.Model.Number.FloatFmt) (fp : JsonV.Canon.FloatCodec)
+    (h : JsonV.Props.C10Glue.FloatRT fp (NormalFl ff)) (f : JsonV.Model.Number.Fl) (hd : NormalFl ff f)
+    (pfGo : Bytes → Except JsonV.Model.Number.NumErr JsonV.Model.Number.Fl)
+    (hagree : pfGo (fp.append f) = if (fp.parse (fp.append f)).inf then .error .range else .ok (fp.parse (fp.append f))) :
+    JsonV.Model.Number.unmarshalFloatLegacy pfGo (unquoteVerbatim (quoteNum (fp.append f))) = .set f := by
+  have hj : JsonV.Spec.Grammar.JNumber (fp.append f) :=
+    JsonV.Props.C10Glue.float_is_JNumber f.neg _ _ (h.wfd f)
+  rw [unquote_quote, JsonV.Props.C10Glue.legacy_same_on_numbers fp.parse pfGo _ hj hagree]
+  exact (JsonV.Props.C10Glue.quoted_float_rt fp (NormalFl ff) h f hd hd.1).2
 
 /-- `timeUnix_rt`: for EVERY int64 second count, every nanosecond count in `[0, 10^9)` and each base
 (formats unix, unixmilli, unixmicro, unixnano) `parseTimeUnix (appendTimeUnix (sec, nsec) p) p = (sec, nsec)`:
